@@ -209,7 +209,7 @@ Definition check_case (c : case) : N :=
   | CText w v written reparsed =>
     let agree_text := match w with WExact f s => bytes_eqb (write f s v) written | _ => true end in
     let agree := agree_text && osame (parse written) reparsed in
-    code agree (text_ok (wpretty w) (wfmt w) v) (osame reparsed (Some v))
+    code agree (text_ok (wpretty w) (wfmt w) v && top_ok (wfmt w) v) (osame reparsed (Some v))
   | CParse v text parsed =>
     code (osame (parse text) parsed) (osame (parse text) (Some v)) (osame parsed (Some v))
   | CPath pre op err post res => check_path pre op err post res
@@ -231,7 +231,7 @@ Definition check_all := check_all_from 0%N.
 (* counters for the evidence *)
 Definition in_guard (c : case) : bool :=
   match c with
-  | CText w v _ _ => text_ok (wpretty w) (wfmt w) v
+  | CText w v _ _ => text_ok (wpretty w) (wfmt w) v && top_ok (wfmt w) v
   | CParse v text _ => osame (parse text) (Some v)
   | CPath pre (OSet p x) _ _ _ =>
     keys_unique pre && match object_to_bag x with Some jx => set_guard p jx pre | None => false end
@@ -242,5 +242,5 @@ Definition in_guard (c : case) : bool :=
 Definition guard_count (cs : list case) : N := N.of_nat (List.length (filter in_guard cs)).
 Definition outside_guard_broken (cs : list case) : N :=
   N.of_nat (List.length (filter (fun c => match c with
-                                        | CText w v _ r => negb (text_ok (wpretty w) (wfmt w) v) && negb (osame r (Some v))
+                                        | CText w v _ r => negb (text_ok (wpretty w) (wfmt w) v && top_ok (wfmt w) v) && negb (osame r (Some v))
                                         | _ => false end) cs)).
